@@ -2,6 +2,7 @@ package main
 
 import (
 	"fmt"
+	"strings"
 
 	simdjson "github.com/minio/simdjson-go"
 
@@ -172,6 +173,64 @@ func c17Deserialized(w *W) {
 						}
 					}
 				}
+			}
+		}
+	}
+	// long gaps: one contiguous NOP run of every length class (a few entries, around 256,
+	// hundreds, tens of thousands) must come back with every entry counting down to the next
+	// live entry
+	w.Note("long gaps: arrays of k numbers deleted as one element for k in {1..6, 60..70, 120..135, 250..262, 1000, 40000} (gap = 2k+2 entries) and the big deleted-from tapes of C11, round-tripped in all 4 modes: strict NOP countdown")
+	var ks []int
+	for k := 1; k <= 6; k++ {
+		ks = append(ks, k)
+	}
+	for k := 60; k <= 70; k++ {
+		ks = append(ks, k)
+	}
+	for k := 120; k <= 135; k++ {
+		ks = append(ks, k)
+	}
+	for k := 250; k <= 262; k++ {
+		ks = append(ks, k)
+	}
+	ks = append(ks, 1000, 40000)
+	gapTape := func(name string, pj *simdjson.ParsedJson) {
+		for m := 0; m < 4; m++ {
+			w.res.Transitions++
+			w.res.Evaluations++
+			w.res.Validated++
+			rt, what := roundTrip(pj, simdjson.CompressMode(m), simdjson.CompressMode((m+2)%4))
+			if what == "" {
+				if terr := tapeErr(rt, ref.TapeOpts{AllowNop: true, StrictNop: true}); terr != nil {
+					what = "deserialized tape violates the format: " + terr.Error()
+				}
+			}
+			if what != "" {
+				w.Violate(Violation{Harness: "C17-long-gap", Fingerprint: "C17/long-gap", What: name + ": " + what, Case: []byte(name), CaseText: name, Config: modeNames[m]})
+				return
+			}
+		}
+	}
+	for _, k := range ks {
+		w.res.States++
+		if !w.Mine() || w.Expired() {
+			continue
+		}
+		var sb strings.Builder
+		sb.WriteString("[[")
+		for i := 0; i < k-1; i++ {
+			fmt.Fprintf(&sb, "%d,", i)
+		}
+		sb.WriteString(`0],"after the gap",{"k":[1,2]},3]`)
+		pj, docs := mustParse(w, sb.String(), false, Cfg{hasAVX512, true})
+		applyOps(w, pj, docs, []editOp{{kind: opArrDelete, p: vpath{0}, route: 0, subset: 0b1}})
+		gapTape(fmt.Sprintf("array of %d numbers deleted as one element", k), pj)
+	}
+	for _, t := range ts {
+		if t.big && (strings.Contains(t.name, "gap") || strings.Contains(t.name, "deleted")) {
+			w.res.States++
+			if w.Mine() {
+				gapTape(t.name, t.pj)
 			}
 		}
 	}
